@@ -13,6 +13,7 @@ import RbModel.Lemmas.GposMark
 import RbModel.Lemmas.Kerx
 import RbModel.Lemmas.GposDevice
 import RbModel.Gen.Gpos
+import RbModel.Lemmas.PairSpanBridge
 
 namespace RbModel.Gpos
 
@@ -718,3 +719,52 @@ example : ∃ s : XSub, s.isSimple = true ∧ s.isVariable = false ∧ Dir.rtl.i
   ⟨{ format := 2 }, by decide, rfl, rfl, rfl⟩
 
 end RbModel.Kern
+
+
+/-! ### the kern model with glyph flags (PairFlag.lean) computes the positions these theorems are about
+
+  `Kern.machineKern` (above: pairing, kerning exactness, frame, the driver brackets) runs on `KInfo` views with a specialised
+  iterator and has no glyph flags.  `PairFlag.machineKernF` / `kerxSimpleF` are the same loops on the buffer model with the REAL
+  skipping iterator (`Gsub.It`) and every `unsafe_to_break` / `unsafe_to_concat` call (what `C03_kern_*` / `C04_kern_*` talk
+  about; tied to the crate by the streams kern-machine-flags / kerx-simple-flags, positions included).  Their positions and
+  attachment flag are those of `machineKern` on the view of the buffer — for every font, buffer, kerning function and
+  direction — provided the kern feature's mask has none of the two flag bits `UNSAFE_TO_BREAK | UNSAFE_TO_CONCAT`
+  (the flag calls write those bits into `info.mask`, which the loop reads as `mask & kern_mask`;
+  `C04_feature_bits_above_flags_gen` shows `mask &&& 7 = 0` for every feature of every compiled map). -/
+namespace RbModel.PairFlag
+open RbModel RbModel.Gsub RbModel.GposFlag RbModel.Flags RbModel.Kern
+open RbModel.Gpos (Pos Dir)
+
+/-- **`machine_kern` with flags = `machine_kern` without, on positions** (legacy `kern`), panics included.  Hypotheses: the
+    buffer invariants the flag setters need (`len` within the Vec, u32 clusters, monotone clusters). -/
+theorem C07_kern_flag_model_positions (f : Font) (b : Buf) (p : Array Pos) (kernMask : Nat) (d : Dir) (cs : Bool)
+    (kernOf : Nat → Nat → Int) (hm : kernMask &&& 3 = 0) (hlen : b.len ≤ b.info.length)
+    (hu32 : ∀ q x, q < b.len → b.info[q]? = some x → x.cluster ≤ U32MAX) (hmono : MonoRange b.info 0 b.len) :
+    (machineKernF f b p kernMask d cs kernOf).map (fun r => (r.2.1, r.2.2)) =
+      liftG (machineKern (b.info.map kinfoOf).toArray p b.len kernMask d cs kernOf) :=
+  machineKernF_positions f b p kernMask d cs kernOf hm ⟨hlen, hu32, hmono⟩
+
+/-- **the kerx copy likewise** (`apply_simple_kerning` of aat_layout_kerx_table.rs is a copy of the loop, not a call:
+    `C07_kerx_simple_is_machine_kern` is a statement about the driver MODEL, which uses `machineKern` for formats 0 / 2 / 6; this
+    theorem is what justifies it: the copy — with its extra `unsafe_to_concat` on an iterator miss, with or without the
+    repeated `unsafe_to_concat(None, None)` of format 2 — computes the positions of `machineKern`). -/
+theorem C07_kerx_flag_model_positions (lc : Bool) (f : Font) (b : Buf) (p : Array Pos) (kernMask : Nat) (d : Dir) (cs : Bool)
+    (kernOf : Nat → Nat → Int) (hm : kernMask &&& 3 = 0) (hlen : b.len ≤ b.info.length)
+    (hu32 : ∀ q x, q < b.len → b.info[q]? = some x → x.cluster ≤ U32MAX) (hmono : MonoRange b.info 0 b.len) :
+    (kerxSimpleF lc f b p kernMask d cs kernOf).map (fun r => (r.2.1, r.2.2)) =
+      liftG (machineKern (b.info.map kinfoOf).toArray p b.len kernMask d cs kernOf) :=
+  kerxSimpleF_positions lc f b p kernMask d cs kernOf hm ⟨hlen, hu32, hmono⟩
+
+-- non-vacuity: base mark mark base, the pair kerned by -50 (both sides evaluate to the same positions)
+example : (machineKernF {} (spanKernBuf 64 256) spanKernPos 256 .ltr false spanKernOf).map (fun r => r.2.1.toList.map (·.xa))
+    = .ok [575, 0, 0, 475] ∧
+    (liftG (machineKern ((spanKernBuf 64 256).info.map kinfoOf).toArray spanKernPos 4 256 .ltr false spanKernOf)).map
+      (fun r => r.1.toList.map (·.xa)) = .ok [575, 0, 0, 475] ∧ (256 : Nat) &&& 3 = 0 := ⟨by rfl, by rfl, by decide⟩
+-- the hypothesis is not idle: with kern mask 2 (= UNSAFE_TO_CONCAT) the leading `unsafe_to_concat(None, None)` puts every glyph
+-- into the "kern range": the flag model kerns a pair of glyphs whose masks did not have the bit, the plain model does not
+example : (machineKernF {} { info := [(1, 0, 2, 7, 0), (2, 0, 2, 7, 1)].map infoK, len := 2, flags := 64 } #[{ xa := 600 }, { xa := 500 }]
+      2 .ltr false spanKernOf).map (fun r => r.2.1.toList.map (·.xa)) = .ok [575, 475] ∧
+    (liftG (machineKern (([(1, 0, 2, 7, 0), (2, 0, 2, 7, 1)].map infoK).map kinfoOf).toArray #[{ xa := 600 }, { xa := 500 }]
+      2 2 .ltr false spanKernOf)).map (fun r => r.1.toList.map (·.xa)) = .ok [600, 500] := ⟨by rfl, by rfl⟩
+
+end RbModel.PairFlag
